@@ -380,6 +380,7 @@ func shrinkHistory(ts TxnSchema, txns []TxnJ, prop string) []TxnJ {
 }
 
 func runTxnProp(r *Run, prop string) {
+	allowNoRoot = true
 	nHist := map[string]int{"C02": 250, "C04": 300, "C06": 300}[prop]
 	if r.Tier == "thorough" {
 		nHist *= 12
